@@ -286,9 +286,9 @@ def _metrics_dict(f, table, what):
         s = u(v)
         if s in table:
             tag = table[s]
-        elif isinstance(v, ast.BinOp) and isinstance(v.op, ast.Add) and u(v.left) in table and table[u(v.left)] == "TLine 0" \
+        elif isinstance(v, ast.BinOp) and isinstance(v.op, ast.Add) and u(v.left) in table and table[u(v.left)] in ("TLine 0", "THLine 0") \
                 and isinstance(v.right, ast.Constant) and isinstance(v.right.value, int) and v.right.value >= 0:
-            tag = f"TLine {v.right.value}"
+            tag = f"{table[u(v.left)].split()[0]} {v.right.value}"
         else:
             raise Unsupported(f"{what}: value of key {k.value}: {s[:60]}")
         out.append(f"({coq_string(k.value)}, {tag})")
@@ -416,6 +416,22 @@ def _walk_type(cls, fn):
     return const_value(b[0].value.args[1])
 
 
+def _walk_types(cls, fn):
+    """return self.walk_tree(root_node, T1) [+ self.walk_tree(root_node, T2) ...] -> [T1, T2, ...]"""
+    b = body_of(find_func(cls, fn))
+    need(len(b) == 1 and isinstance(b[0], ast.Return), f"{fn}: single return")
+
+    def terms(e):
+        if isinstance(e, ast.BinOp) and isinstance(e.op, ast.Add):
+            return terms(e.left) + terms(e.right)
+        need(isinstance(e, ast.Call) and u(e.func) == "self.walk_tree" and len(e.args) == 2 and not e.keywords and u(e.args[0]) == "root_node",
+             f"{fn}: walk_tree call")
+        return [const_value(e.args[1])]
+    out = terms(b[0].value)
+    need(all(isinstance(x, str) for x in out), f"{fn}: node type names")
+    return out
+
+
 def _walk_tree_ok(rel, cls):
     c = find_class(parse(rel), cls)
     r = body_of(find_func(c, "_walk_tree_recursive"))
@@ -441,8 +457,16 @@ def _first_child_type(f, var):
 def ts_items():
     _walk_tree_ok("src/analyzers/typescript_base.py", "TypeScriptBaseAnalyzer")
     an = find_class(parse(D + "typescript_analyzer.py"), "TypeScriptSRPAnalyzer")
-    out = defn("ts_class_node_type", "string", coq_string(_walk_type(an, "find_all_classes")))
+    out = defn("ts_class_node_types", "list string", coq_str_list(_walk_types(an, "find_all_classes")))
     ac = find_func(an, "analyze_class")
+    # _header_node (optional): the first child whose type is one of the listed keywords, else the class node itself
+    hdr_table = {}
+    hn = [n for n in an.body if isinstance(n, ast.FunctionDef) and n.name == "_header_node"]
+    if hn:
+        tys, ret = _first_child_type(hn[0], "class_node")
+        hb = body_of(hn[0])
+        need(ret == "child" and len(hb) == 2 and u(hb[1]) == "return class_node" and sorted(tys) == ["abstract", "class"], "_header_node shape")
+        hdr_table = {"self._header_node(class_node).start_point[0]": "THLine 0", "self._header_node(class_node).start_point[1]": "THColumn"}
     need(_assigned(ac, "class_name") == "self.extract_identifier_name(class_node)" and _assigned(ac, "method_count") == "self.metrics_calculator.count_methods(class_node)"
          and _assigned(ac, "loc") == "self.metrics_calculator.count_loc(class_node, source)", "ts analyze_class: metric computations")
     hk = [st.value for st in body_of(ac) if isinstance(st, ast.Assign) and u(st.targets[0]) == "has_keyword"]
@@ -450,7 +474,7 @@ def ts_items():
     out += defn("ts_kw_mode", "kwmode", _kw_mode(hk[0], "keyword", "class_name", "config.keywords"))
     out += defn("ts_metrics_dict", "list (string * mtag)", _metrics_dict(ac, {
         "class_name": "TName", "method_count": "TMethodCount", "loc": "TLoc", "has_keyword": "THasKeyword",
-        "class_node.start_point[0]": "TLine 0", "class_node.start_point[1]": "TColumn"}, "ts analyze_class"))
+        "class_node.start_point[0]": "TLine 0", "class_node.start_point[1]": "TColumn", **hdr_table}, "ts analyze_class"))
     ein = find_func(find_class(parse("src/analyzers/typescript_base.py"), "TypeScriptBaseAnalyzer"), "extract_identifier_name")
     tys, ret = _first_child_type(ein, "node")
     need(ret == "self.extract_node_text(child)", "extract_identifier_name return")
@@ -493,16 +517,40 @@ def ts_items():
             raise Unsupported(f"ts _is_countable_method: unsupported test {u(t)[:60]}")
     out += defn("ts_countable_tests", "list mtest", coq_list(tests))
     cl = body_of(fns["count_loc"])
-    need(len(cl) == 3 and u(cl[0]) == "start_line = class_node.start_point[0]" and u(cl[1]) == "end_line = class_node.end_point[0]"
-         and isinstance(cl[2], ast.Return), "ts count_loc shape")
-    e = cl[2].value
-    need(isinstance(e, ast.BinOp) and isinstance(e.op, ast.Add) and u(e.left) == "end_line - start_line" and isinstance(e.right, ast.Constant)
-         and isinstance(e.right.value, int) and e.right.value >= 0, f"ts count_loc expression {u(e)}")
-    out += defn("ts_loc_span_plus", "nat", str(e.right.value))
+    need(len(cl) in (3, 4) and u(cl[0]) == "start_line = class_node.start_point[0]" and u(cl[1]) == "end_line = class_node.end_point[0]"
+         and isinstance(cl[-1], ast.Return), "ts count_loc shape")
+    if len(cl) == 3:
+        e = cl[2].value
+        need(isinstance(e, ast.BinOp) and isinstance(e.op, ast.Add) and u(e.left) == "end_line - start_line" and isinstance(e.right, ast.Constant)
+             and isinstance(e.right.value, int) and e.right.value >= 0, f"ts count_loc expression {u(e)}")
+        out += defn("ts_loc_mode", "locmode", f"LocSpan {e.right.value}")
+    else:
+        lo, hi, pfx = _filtered_slice(cl[2], cl[3], "ts count_loc")
+        out += defn("ts_loc_mode", "locmode", f"LocFilter {lo} {hi} {coq_string(pfx)}")
     ca = find_func(find_class(parse(D + "class_analyzer.py"), "ClassAnalyzer"), "analyze_typescript")
     need("self._typescript_analyzer.find_all_classes(root_node)" in u(ca) and "self._typescript_analyzer.analyze_class(class_node, context.file_content or '', config)" in u(ca)
          and "for class_node in classes" in u(ca), "analyze_typescript shape")
     return out
+
+
+def _filtered_slice(sl, r, what):
+    """lines = source.split('\\n')[start_line - a : end_line + b];  return sum(1 for line in lines if <non-blank> and not <startswith P>)"""
+    need(isinstance(sl, ast.Assign) and u(sl.targets[0]) == "lines" and isinstance(sl.value, ast.Subscript) and u(sl.value.value) == "source.split('\\n')"
+         and isinstance(sl.value.slice, ast.Slice) and sl.value.slice.step is None, f"{what}: slice")
+    lo = _offset(sl.value.slice.lower, "start_line", ast.Sub)
+    hi = _offset(sl.value.slice.upper, "end_line", ast.Add)
+    need(isinstance(r, ast.Return) and isinstance(r.value, ast.Call) and u(r.value.func) == "sum" and len(r.value.args) == 1
+         and isinstance(r.value.args[0], ast.GeneratorExp), f"{what}: sum")
+    g = r.value.args[0]
+    need(u(g.elt) == "1" and len(g.generators) == 1 and u(g.generators[0].target) == "line" and u(g.generators[0].iter) == "lines"
+         and len(g.generators[0].ifs) == 1, f"{what}: generator")
+    c = g.generators[0].ifs[0]
+    need(isinstance(c, ast.BoolOp) and isinstance(c.op, ast.And) and len(c.values) == 2, f"{what}: condition")
+    n = c.values[1]
+    need(isinstance(n, ast.UnaryOp) and isinstance(n.op, ast.Not) and isinstance(n.operand, ast.Call) and len(n.operand.args) == 1, f"{what}: comment test")
+    blank, call = u(c.values[0]), u(n.operand.func)
+    need((blank, call) in (("line.strip()", "line.strip().startswith"), ("(s := line.strip())", "s.startswith")), f"{what}: blank/comment tests {blank} / {call}")
+    return lo, hi, const_value(n.operand.args[0])
 
 
 # ---------------------------------------------------------------- Rust
@@ -511,11 +559,32 @@ def rs_items():
     an = find_class(parse(D + "rust_analyzer.py"), "RustSRPAnalyzer")
     out = defn("rs_struct_node_type", "string", coq_string(_walk_type(an, "find_all_structs")))
     out += defn("rs_impl_node_type", "string", coq_string(_walk_type(an, "find_all_impl_blocks")))
-    tys, ret = _first_child_type(find_func(an, "get_impl_target_name"), "impl_node")
-    need(len(tys) == 1 and ret == "self.extract_node_text(child)", "get_impl_target_name")
-    out += defn("rs_target_node_type", "string", coq_string(tys[0]))
+    gt = find_func(an, "get_impl_target_name")
+    gb = body_of(gt)
+    if len(gb) == 2:
+        tys, ret = _first_child_type(gt, "impl_node")
+        need(len(tys) == 1 and ret == "self.extract_node_text(child)" and u(gb[1]) == "return ''", "get_impl_target_name (loop form)")
+        out += defn("rs_target_mode", "tmode", f"TargetFirst {coq_string(tys[0])}")
+    else:
+        need(len(gb) == 5 and u(gb[0]) == "type_node = impl_node.child_by_field_name('type')" and u(gb[4]) == "return ''", "get_impl_target_name (field form)")
+        g1, g2 = gb[1], gb[2]
+        need(isinstance(g1, ast.If) and not g1.orelse and [u(x) for x in g1.body] == ["type_node = type_node.child_by_field_name('type')"]
+             and isinstance(g1.test, ast.BoolOp) and isinstance(g1.test.op, ast.And) and u(g1.test.values[0]) == "type_node is not None"
+             and isinstance(g1.test.values[1], ast.Compare) and u(g1.test.values[1].left) == "type_node.type" and isinstance(g1.test.values[1].ops[0], ast.Eq),
+             "get_impl_target_name: generic unwrap")
+        need(isinstance(g2, ast.If) and not g2.orelse and [u(x) for x in g2.body] == ["return self.extract_node_text(type_node)"]
+             and isinstance(g2.test, ast.BoolOp) and isinstance(g2.test.op, ast.And) and u(g2.test.values[0]) == "type_node is not None"
+             and isinstance(g2.test.values[1], ast.Compare) and u(g2.test.values[1].left) == "type_node.type" and isinstance(g2.test.values[1].ops[0], ast.Eq),
+             "get_impl_target_name: field test")
+        loop = ast.Module(body=[gb[3]], type_ignores=[])
+        fake = ast.FunctionDef(name="get_impl_target_name", body=[gb[3]], args=None, decorator_list=[])
+        tys, ret = _first_child_type(fake, "impl_node")
+        need(len(tys) == 1 and ret == "self.extract_node_text(child)", "get_impl_target_name: fallback loop")
+        out += defn("rs_target_mode", "tmode", f"TargetField {coq_string(const_value(g1.test.values[1].comparators[0]))} "
+                                               f"{coq_string(const_value(g2.test.values[1].comparators[0]))} {coq_string(tys[0])}")
     tys2, ret = _first_child_type(find_func(an, "_extract_type_name"), "node")
-    need(tys2 == tys and ret == "self.extract_node_text(child)", "_extract_type_name")
+    need(len(tys2) == 1 and ret == "self.extract_node_text(child)", "_extract_type_name")
+    out += defn("rs_struct_name_node_type", "string", coq_string(tys2[0]))
     tys, ret = _first_child_type(find_func(an, "_find_declaration_list"), "impl_node")
     need(len(tys) == 1 and ret == "child", "_find_declaration_list")
     out += defn("rs_decl_list_type", "string", coq_string(tys[0]))
@@ -544,20 +613,10 @@ def rs_items():
                                                                       "return struct_loc + impl_loc"], "_calculate_loc shape")
     nl = body_of(find_func(an, "_node_loc"))
     need(len(nl) == 4 and u(nl[0]) == "start_line = node.start_point[0]" and u(nl[1]) == "end_line = node.end_point[0]", "_node_loc: line range")
-    sl = nl[2]
-    need(isinstance(sl, ast.Assign) and u(sl.targets[0]) == "lines" and isinstance(sl.value, ast.Subscript) and u(sl.value.value) == "source.split('\\n')"
-         and isinstance(sl.value.slice, ast.Slice) and sl.value.slice.step is None, "_node_loc: slice")
-    out += defn("rs_loc_lo_sub", "nat", str(_offset(sl.value.slice.lower, "start_line", ast.Sub)))
-    out += defn("rs_loc_hi_add", "nat", str(_offset(sl.value.slice.upper, "end_line", ast.Add)))
-    r = nl[3]
-    need(isinstance(r, ast.Return) and isinstance(r.value, ast.Call) and u(r.value.func) == "sum" and isinstance(r.value.args[0], ast.GeneratorExp), "_node_loc: sum")
-    g = r.value.args[0]
-    need(u(g.elt) == "1" and u(g.generators[0].iter) == "lines" and len(g.generators[0].ifs) == 1, "_node_loc: generator")
-    c = g.generators[0].ifs[0]
-    need(isinstance(c, ast.BoolOp) and isinstance(c.op, ast.And) and len(c.values) == 2 and u(c.values[0]) == "line.strip()", "_node_loc: blank test")
-    n = c.values[1]
-    need(isinstance(n, ast.UnaryOp) and isinstance(n.op, ast.Not) and isinstance(n.operand, ast.Call) and u(n.operand.func) == "line.strip().startswith", "_node_loc: comment test")
-    out += defn("rs_comment_prefix", "string", coq_string(const_value(n.operand.args[0])))
+    lo, hi, pfx = _filtered_slice(nl[2], nl[3], "_node_loc")
+    out += defn("rs_loc_lo_sub", "nat", str(lo))
+    out += defn("rs_loc_hi_add", "nat", str(hi))
+    out += defn("rs_comment_prefix", "string", coq_string(pfx))
     ast_ = find_func(an, "analyze_struct")
     need(_assigned(ast_, "struct_name") == "self._extract_type_name(struct_node)" and _assigned(ast_, "method_count") == "self._count_total_methods(impl_blocks)"
          and _assigned(ast_, "loc") == "self._calculate_loc(struct_node, impl_blocks, source)", "analyze_struct: metric computations")
